@@ -129,6 +129,9 @@ class Arr(Ty):
             e['zero_terminated'] = 0
             e['has_length'] = 0
             e['has_size'] = 0
+        # arrays are passed by reference, except a fixed-size C array that is the type of a field:
+        # that one is embedded in the struct (this is what the struct layout of C08 relies on)
+        e['pointer'] = 0 if (in_field and kind == 'c' and self.size is not None) else 1
         return e
 
 
